@@ -30,7 +30,7 @@ PROPS["C02"] = dict(level="exploration", steps=simple("^TestC02"), assumptions=T
 PROPS["C09"] = dict(level="exploration", steps=simple("^(TestC09|TestRefGolden)", shards_quick=2), assumptions=TRUST)
 PROPS["C19"] = dict(level="exploration", steps=simple("^TestC19", shards_thorough=1), assumptions=TRUST)
 PROPS["C06"] = dict(level="fault_enumeration", steps=simple("^TestC06", shards_quick=3), assumptions=TRUST)
-PROPS["C05"] = dict(level="exploration", steps=simple("^TestC05", shards_quick=2, fuzz="FuzzC05"), assumptions=TRUST)
+PROPS["C05"] = dict(level="exploration", steps=simple("^TestC05", shards_quick=2, fuzz="FuzzC05", also386=True), assumptions=TRUST)
 
 
 def twin(run, shards_thorough=16, fuzz=None):
@@ -83,7 +83,7 @@ def c14_steps(tier):
 
 
 PROPS["C14"] = dict(level="exploration", steps=c14_steps, replay_variant={"C14/frame": "bubble", "C14/block": "default"}, assumptions=TRUST)
-PROPS["C15"] = dict(level="fault_enumeration", steps=simple("^TestC15", shards_quick=2), assumptions=TRUST)
+PROPS["C15"] = dict(level="fault_enumeration", steps=simple("^TestC15", shards_quick=3), assumptions=TRUST)
 PROPS["C18"] = dict(level="exploration", steps=simple("^TestC18"), assumptions=TRUST)
 PROPS["C07"] = dict(level="exploration", steps=simple("^TestC07", variant="bubble", shards_quick=2, journal=True, fuzz="FuzzC07"), default_variant="bubble", assumptions=TRUST + [
     "testing/synctest (Go 1.26.8) for 'never blocks forever' and leaked goroutines; runtime.MemStats.TotalAlloc as the allocation meter"])
